@@ -257,3 +257,22 @@ def _c17_retyped(sub: dict, params: dict) -> bool:
         if t is not None and t[0] <= y[0] and y[1] <= t[1] + 1:
             return True
     return False
+
+
+@predicate("c13_add_mark_over_inline_container")
+def _c13_container(sub: dict, params: dict) -> bool:
+    """add_mark over a range that contains (wholly) an inline node which has content of its own and is not an atom,
+    in a parent that allows the mark."""
+    if sub.get("mode") != "c13" or sub.get("op", {}).get("op") != "add_mark":
+        return False
+    from .gen import schemas
+    from .ref import resolve as RR
+
+    _lib, rs = schemas.get(sub["schema"])
+    op = sub["op"]
+    for k, s_, par, _i, _d in RR.all_nodes(RR.N(sub["doc"], rs)):
+        if k.is_text or rs.leaf[k.t] or not rs.inline[k.t] or rs.nodes[k.t].get("atom"):
+            continue
+        if op["from"] <= s_ and s_ + k.size <= op["to"] and par is not None and rs.allows_mark(par.t, op["mark"][0]):
+            return True
+    return False
